@@ -419,6 +419,7 @@ func (b *typeBuilder) composites() {
 		{"pointer-to-enum", "*CE§", []string{"$ref:CE§"}, "", ""},
 		{"embedded-pointer", "", nil, "*Leaf§", "Leaf§"},
 		{"three-levels", "Mid§", []string{"$ref:Mid§"}, "", ""},
+		{"three-levels-declared-in-one-grouped-type-block", "Mid§", []string{"$ref:Mid§"}, "", ""},
 	}
 	for _, c := range comps {
 		for _, usage := range []string{"return", "body"} {
@@ -450,6 +451,19 @@ func (b *typeBuilder) composites() {
 				case strings.Contains(c.field, "CA§"):
 					exp.Optional = append(exp.Optional, sub("CA§")) // a primitive alias may be inlined or referenced
 				}
+			}
+			if strings.Contains(c.name, "grouped-type-block") {
+				// the same declarations as one `type ( ... )` block (the constants stay outside)
+				parts := strings.Split(decl, "\n\n")
+				var specs, rest []string
+				for _, p := range parts {
+					if strings.HasPrefix(p, "type ") && strings.Contains(p, " struct {") {
+						specs = append(specs, "\t"+strings.ReplaceAll(strings.TrimPrefix(strings.TrimSpace(p), "type "), "\n", "\n\t"))
+					} else if strings.TrimSpace(p) != "" {
+						rest = append(rest, p)
+					}
+				}
+				decl = "type (\n" + strings.Join(specs, "\n\n") + "\n)\n\n" + strings.Join(rest, "\n\n") + "\n"
 			}
 			exp.Schemas[sub("Root§")] = root
 			for _, n := range []string{"Leaf§", "Mid§", "CE§", "CA§"} {
